@@ -3,6 +3,7 @@
 set -e
 # the extracted file is large (big constants become nested expressions): the OCaml compiler needs a deep stack
 ulimit -s unlimited 2>/dev/null || ulimit -s 1000000 2>/dev/null || true
+mkdir -p "$(dirname "$0")/Extract/out"
 cd "$(dirname "$0")/Extract/out"
 rm -f mpsmodel.ml mpsmodel.mli
 coqc -Q ../.. MPS -w -extraction ../Extract.v >/dev/null
